@@ -49,6 +49,23 @@ def run(tier, rep, ev):
                               "target": "path" if len(cases) % 2 else "stream", "password": "pw" if len(cases) % 7 == 0 else None,
                               "coder": ["lzma2", "copy", "bzip2", "deflate", "copy", "bcj+lzma2", "delta+lzma2"][len(cases) % 7], "seed": si, "ending": "close",
                               "wd": os.path.join(base, f"c{len(cases)}")})
+    # archives written by py7zr itself: a zero-length file is a zero-length stream of its folder - first, between and last in a solid folder
+    E = {"kind": "empty", "folder": 0, "pos": 0, "parent": 0}
+    Fm = lambda f, p: {"kind": "file", "folder": f, "pos": p, "parent": 0}          # noqa: E731
+    pyshapes = [{"members": [E, Fm(1, 1), Fm(1, 2)], "nfolders": 1}, {"members": [Fm(1, 1), E, Fm(1, 2), E], "nfolders": 1},
+                {"members": [E, E, Fm(1, 1), Fm(2, 1), E, Fm(2, 2)], "nfolders": 2}]
+    for si, shape in enumerate(pyshapes):
+        n = len(shape["members"])
+        universe = list(range(1, n + 1)) + [0]
+        subsets = [list(c) for k in range(0, len(universe) + 1) for c in itertools.combinations(universe, k)]
+        if tier == "quick" and len(subsets) > 40:
+            subsets = R.sample(subsets, 40)
+        for T in subsets:
+            cases.append({"shape": shape, "calls": [{"name": "extract", "T": T, "rec": bool(len(cases) % 2), "asset": "list", "slash": "none",
+                                                      "sink": ["factory", "path"][len(cases) % 2]}],
+                          "target": "path" if len(cases) % 3 else "stream", "password": None, "writer": "py7zr",
+                          "filters": [[{"id": 0x21, "preset": 1}], [{"id": 0x33}], [{"id": 0x32}]][len(cases) % 3], "seed": si, "ending": "close",
+                          "wd": os.path.join(base, f"c{len(cases)}")})
     ev.sample({"shape": shapes[-1], "case": {k: v for k, v in cases[len(cases) // 2].items() if k not in ("shape", "wd")}})
     _read.run_and_validate("C09", cases, rep, ev, validate)
     ev.cov["exhaustive"] = tier != "quick"
